@@ -140,7 +140,7 @@ class Machine:
         s.fns=fns; s.consts=consts; s.allocs=allocs; s.solver=z3.Solver(); s.models={}; s.nq=0; s.qtime=0.0
         s.by_closure={f.closure_span:f for f in fns.values() if f.closure_span}
         s.const_cache={}
-        s.stats={'stmts':0,'paths':0,'forks':0}; s.verbose=False
+        s.stats={'stmts':0,'paths':0,'forks':0}; s.verbose=False; s.summaries={}
     # ---------------- solver
     qtimeout=600
     cache_hits=0
@@ -550,6 +550,54 @@ def bal_angle(t):
     return d==0
 
 # ------------------------------------------------------------------ run loop
+# ------------------------------------------------------------------ small-domain function summaries
+_SMALL={'Rank':13,'Suit':4}
+def small_domain_summary(M,f,arg):
+    """a crate function of ONE argument whose type is Card / Rank / Suit (by value or by reference) and whose result is an integer,
+    char or bool, called with a SYMBOLIC argument: instead of forking on every match arm, run it concretely on each of the <= 52
+    values of the domain (once, cached) and return the if-then-else over the symbolic argument.  None = not applicable."""
+    if len(f.argtypes)!=1: return None
+    aty=f.argtypes[0].replace('&','').replace("'_ ",'').strip().split('::')[-1]
+    rty=f.ltypes.get(0,'').strip()
+    if aty not in('Card','Rank','Suit') or not (ty_int(rty) or rty in('char','bool')): return None
+    v=deref(arg)
+    def sym(e): return isinstance(e,Enum) and not isinstance(e.var,str)
+    if aty=='Card':
+        if not(isinstance(v,Agg) and len(v.f)==2 and (sym(v.f[0]) or sym(v.f[1]))): return None
+    elif not sym(v): return None
+    tab=M.summaries.get(f.name)
+    if tab is None:
+        tab={}
+        dom=[(r,s_) for r in range(13) for s_ in range(4)] if aty=='Card' else [(k,) for k in range(_SMALL[aty])]
+        for d in dom:
+            if aty=='Card': cv=Agg('Card',[Enum('Rank',ENUMS['Rank'][d[0]],[]),Enum('Suit',ENUMS['Suit'][d[1]],[])])
+            else: cv=Enum(aty,ENUMS[aty][d[0]],[])
+            a0=Ref(Cell('sumarg',cv),[]) if f.argtypes[0].strip().startswith('&') else cv
+            st2=State(); st2.frames=[Frame(f,[a0],None,None)]
+            saved=M.summarise; M.summarise=False
+            try:
+                res=M.run(st2,limit=M.stats['stmts']+200000)
+            except (Unsupported,Panic):
+                res=[]
+            finally:
+                M.summarise=saved
+            if len(res)!=1 or isinstance(res[0].result,tuple) or not isinstance(res[0].result,(Int,Bool)) or not res[0].result.conc():
+                tab=False; break
+            tab[d]=res[0].result
+        M.summaries[f.name]=tab
+    if tab is False: return None
+    items_=list(tab.items()); last=items_[-1][1]
+    if aty=='Card': key=lambda d: z3.And(enum_idx(v.f[0])==d[0],enum_idx(v.f[1])==d[1])
+    else: key=lambda d: enum_idx(v)==d[0]
+    if isinstance(last,Bool):
+        t=z3.BoolVal(last.v)
+        for d,r in reversed(items_[:-1]): t=z3.If(key(d),z3.BoolVal(r.v),t)
+        return mkbool(t)
+    t=z3.BitVecVal(last.v,last.bits)
+    for d,r in reversed(items_[:-1]): t=z3.If(key(d),z3.BitVecVal(r.v,r.bits),t)
+    t=z3.simplify(t)
+    return Char(t) if isinstance(last,Char) else Int(t,last.bits,last.signed)
+
 class PathEnd(Exception): pass
 def run(M,st0,limit=10**10,on_call=None):
     """explore all paths from st0; returns list of finished states (result or panic)"""
@@ -583,6 +631,7 @@ def run(M,st0,limit=10**10,on_call=None):
                 blk=fr.fn.blocks[fr.bb]
                 s=blk[fr.ip]; fr.ip+=1; M.stats['stmts']+=1
                 if M.stats['stmts']>limit: raise Unsupported('step limit')
+                if M.deadline and (M.stats['stmts'] & 1023)==0 and time.time()>M.deadline: raise Unsupported('exploration time budget exhausted (path explosion?)')
                 last = fr.ip==len(blk)
                 if not last:
                     if s.startswith(('StorageLive','StorageDead','nop','FakeRead','AscribeUserType','PlaceMention','Retag','ConstEvalCounter','Coverage')): continue
@@ -674,6 +723,10 @@ def run(M,st0,limit=10**10,on_call=None):
                 args=[operand(M,fr,a) for a in split_top(argt)] if argt.strip() else []
                 mm=re.search(r'return: bb(\d+)',tail); retbb=int(mm.group(1)) if mm else None
                 f=None if callee.strip() in M.overrides else resolve_callee(M,callee)
+                if f is not None and len(args)==1 and M.summarise:
+                    sm=small_domain_summary(M,f,args[0])
+                    if sm is not None:
+                        cc,pa=M.resolve(fr,destp); setp(cc,pa,sm); fr.bb=retbb; fr.ip=0; continue
                 if f is not None:
                     if f.name in M.fmt_hooks and len(args)==2: M.fmt_hooks[f.name](deref(args[0]))
                     key=f.name
@@ -1239,15 +1292,20 @@ def call_model(M,st,fr,callee,args):
     m=re.match(r'^(HashMap|HashSet)::<.*>::(len|is_empty)$',c)
     if m:
         o=deref(args[0]); its=o.slots if m.group(1)=='HashMap' else [[x,None,True] for x in o.items]
-        if any(sl[2] is not True and sl[2] is not False for sl in its): raise Unsupported('len of a map with symbolic presence')
+        sym=[sl[2] for sl in its if sl[2] is not True and sl[2] is not False]
         n=sum(1 for sl in its if sl[2] is True)
+        if sym:
+            tot=z3.BitVecVal(n,64)
+            for p_ in sym: tot=tot+z3.If(p_,z3.BitVecVal(1,64),z3.BitVecVal(0,64))
+            return Int(z3.simplify(tot),64) if m.group(2)=='len' else mkbool(tot==0)
         return Int(n,64) if m.group(2)=='len' else Bool(n==0)
     m=re.match(r'^HashMap::<.*>::(keys|values)$',c)
     if m:
         mp=deref(args[0])
-        if any(sl[2] is not True and sl[2] is not False for sl in mp.slots): raise Unsupported('iterate map with symbolic presence')
         k=0 if m.group(1)=='keys' else 1
-        return PyObj('iter',src='list',items=[Ref(Cell('mapkv',sl[k]),[]) for sl in mp.slots if sl[2] is True],pos=0)
+        mk=lambda mp_,k=k: PyObj('iter',src='list',items=[Ref(Cell('mapkv',sl[k]),[]) for sl in mp_.slots if sl[2] is True],pos=0)
+        if any(sl[2] is not True and sl[2] is not False for sl in mp.slots): return ResolvePresenceNF(mp,mk)
+        return mk(mp)
     if re.match(r'^<std::collections::hash_map::(Keys|Values)<.*> as Iterator>::next$',c):
         it=deref(args[0])
         if it.pos<len(it.items): it.pos+=1; return some(it.items[it.pos-1])
@@ -1639,6 +1697,9 @@ Machine.overrides={}
 Machine.fmt_hooks={}
 Machine.cut=None
 Machine.profile='dev'
+Machine.deadline=None
+Machine.summarise=True
+Machine.summaries={}
 _fresh=[0]
 def _f(s): _fresh[0]+=1; return _fresh[0]
 Machine.fresh=_f
